@@ -90,18 +90,20 @@ def class_header(cls, backend, u, extra_methods=()):
         lines.append('#include "vp_edm_%s.h"' % d)
     body = "class @CLS@ {\n public:\n  int _id = 0;\n"
     body += "\n".join(_method_cpp(m, backend, u) for m in methods)
+    # a class that is itself a singleton collection is retrieved directly from the store
+    for coll in u["singletons"]:
+        if u["collClass"][coll] == cls and b["colls"][coll]["py"]:
+            body += ('\n  static const char *vp_ctype() { return "%s"; }\n  static const char *vp_coll() { return "%s"; }\n'
+                     "  static const %s *vp_fetch(const std::vector<int> &ids) { return ids.size() == 1 ? vp::obj<%s>(ids[0]) : nullptr; }"
+                     % (b["colls"][coll]["ctype"], coll, q, q))
     body += "\n};"
-    # forward declare self for self-referencing returns
     fwd = _ns_wrap(q, "class @CLS@;")
     return "\n".join(lines) + "\n" + fwd + _ns_wrap(q, body)
 
 
-def container_header(coll, backend, u):
+def container_text(coll, ctype, cls, backend, u):
     b = u["backends"][backend]
-    c = b["colls"][coll]
-    cls = u["collClass"][coll]
     q = b["classes"][cls]
-    ctype = c["ctype"]
     cname = ctype.split("::")[-1]
     if b["elemptr"]:
         elem = "const %s *" % q
@@ -112,12 +114,13 @@ def container_header(coll, backend, u):
     body = ("class %s : public std::vector<%s> {\n public:\n"
             '  static const char *vp_ctype() { return "%s"; }\n'
             '  static const char *vp_coll() { return "%s"; }\n'
-            "  static %s *vp_make(const std::vector<int> &ids) { %s *c = new %s(); %s return c; }\n};"
+            "  static const %s *vp_fetch(const std::vector<int> &ids) { std::shared_ptr<%s> c(new %s()); %s "
+            "vp::st().keep.push_back(c); return c.get(); }\n};"
             % (cname, elem, ctype, coll, cname, cname, cname, make))
     ns = ctype.split("::")[:-1]
     pre = "".join("namespace %s { " % n for n in ns)
     post = "}" * len(ns)
-    return '#pragma once\n#include "vp_edm_%s.h"\n%s\n%s\n%s\n' % (cls, pre, body, post)
+    return '#include "vp_edm_%s.h"\n%s\n%s\n%s\n' % (cls, pre, body, post)
 
 
 def _write(path, text):
@@ -137,8 +140,19 @@ def generate_model(u, outroot):
             _write(os.path.join(root, h), "#pragma once\n")
         for cls in b["classes"]:
             _write(os.path.join(root, "vp_edm_%s.h" % cls), class_header(cls, backend, u))
+        headers = {}
         for coll, c in b["colls"].items():
-            _write(os.path.join(root, c["header"]), container_header(coll, backend, u))
+            if not c["py"] or coll in u["singletons"]:
+                continue
+            headers.setdefault(c["header"], []).append(container_text(coll, c["ctype"], u["collClass"][coll], backend, u))
+        for coll in u["singletons"]:
+            c = b["colls"][coll]
+            if c["py"]:
+                headers.setdefault(c["header"], []).append('#include "vp_edm_%s.h"\n' % u["collClass"][coll])
+        # the container a metadata declaration may substitute for the built-in A
+        headers.setdefault(u["altHeader"], []).append(container_text("A", b["altA"], "A", backend, u))
+        for h, parts in headers.items():
+            _write(os.path.join(root, h), "#pragma once\n" + "".join(parts))
         if backend == "atlas":
             for rel in ("AnaAlgorithm/AnaAlgorithm.h", "xAODRootAccess/tools/TFileAccessTracer.h", "TTree.h", "vp_shim.h"):
                 shutil.copy(os.path.join(MODEL_SRC, "atlas", rel), _mk(os.path.join(root, rel)))
